@@ -69,7 +69,8 @@ func SliceAppend(src Slice, data unsafe.Pointer, num, etSize int) Slice {
 	}
 	oldLen := src.len
 	src = GrowSlice(src, num, etSize)
-	c.Memcpy(c.Advance(src.data, oldLen*etSize), data, uintptr(num*etSize))
+	// data may alias src's backing array (append(s[:i], s[j:]...)): memmove, not memcpy.
+	c.Memmove(c.Advance(src.data, oldLen*etSize), data, uintptr(num*etSize))
 	return src
 }
 
